@@ -39,7 +39,9 @@ MUX = {
         title="end-of-stream exactly when the peer finished",
         mc=dict(quick=["MC_Close_q"], thorough=["MC_Close", "MC_Reuse"]),
         needs=["AShutdown", "ADropStream", "ARead", "TDrop"],
-        sims=dict(quick=[("close", 160, 90)], thorough=[("close", 3000, 140), ("all", 1000, 160)]),
+        # `fault`: end-of-stream "only after ... the connection has ended" -- reads of streams that outlive the connection,
+        # attempted while the task is still winding down
+        sims=dict(quick=[("close", 160, 90), ("fault", 120, 80)], thorough=[("close", 3000, 140), ("all", 1000, 160), ("fault", 2500, 120)]),
         nontrivial=lambda r: r.get("ev") == "read" and r.get("res") == "eof",
         rule="a trace counts when some read reported end-of-stream",
     ),
@@ -168,6 +170,19 @@ def attribute(f):
         props |= {"C07"}
         if res == "closed" or "closed" in exp_res:
             props |= {"C08"}
+        if ev == "accept":
+            # the stream the specification hands over here was already written to / finished / aborted by the peer while it
+            # waited in the accept queue: not handing it over (or handing over another one) loses what the peer's abort or
+            # shutdown owes the acceptor (delivered data, then end-of-stream): C06, C05
+            try:
+                hs = (f.get("laststate") or {}).get("hnd", {}).get(u.get("e"), [])
+                for x in exp:
+                    if x.get("res") == "ok" and x.get("h"):
+                        hv = hs[str(x["h"])] if isinstance(hs, dict) else hs[int(x["h"]) - 1]
+                        if hv.get("closedW") or hv.get("inq") or hv.get("finQ") or hv.get("eof") not in (None, "none"):
+                            props |= {"C06", "C05"}
+            except Exception:
+                pass
     elif ev in ("shutdown", "drop"):
         props |= {"C05", "C06"}
     elif ev in ("dg_send", "dg_get"):
